@@ -21,7 +21,7 @@
 (* empty.  With a negative weight allowed (NegWeights = TRUE: an OPB objective with  *)
 (* a negative coefficient, open known finding) Optimal is violated.         *)
 (***************************************************************************)
-EXTENDS Integers, FiniteSets, Sequences, TLC
+EXTENDS Integers, FiniteSets, Sequences, TLC, Json, CSV, IOUtils
 
 CONSTANTS N, W, NegWeights   \* NegWeights = TRUE: weights may be -1 (configuration files cannot hold negative numbers)
 MinW == IF NegWeights THEN -1 ELSE 0
@@ -63,4 +63,15 @@ Optimal == phase = "done" =>
               /\ (stream = <<>>) <=> (M0 = {})
               /\ stream # <<>> => \A m \in M0 : Cost(m) >= Last.cost
 Terminates == <>(phase = "done")
+
+(* ---- spec -> code: every initial state (model set, weights) becomes a problem -------------------- *)
+(* the CNF whose models are exactly M0: one clause per excluded assignment                            *)
+SetToSeq(S) == LET RECURSIVE Go(_)
+                   Go(T) == IF T = {} THEN <<>> ELSE LET x == CHOOSE x \in T : TRUE IN <<x>> \o Go(T \ {x})
+               IN Go(S)
+Excluding(a) == [v \in Vars |-> IF a[v] THEN -v ELSE v]
+EmitFile == IF "VERIF_EMIT" \in DOMAIN IOEnv THEN IOEnv.VERIF_EMIT ELSE "optimize_emit.ndjson"
+EmitInit == (phase = "solve" /\ stream = <<>>) =>
+              CSVWrite("%1$s", <<ToJson([n |-> N, clauses |-> SetToSeq({Excluding(a) : a \in Asg \ M0}),
+                                         w |-> [v \in Vars |-> w[v]]])>>, EmitFile)
 =============================================================================
